@@ -795,7 +795,8 @@ impl<'a> Parser<'a> {
             if_false = false_branch;
             end = false_end;
         }
-        if end == next {
+        // Comments and (in free-spacing mode) blanks are not a branch: `(?(1)(?#c))` is `(?(1))`.
+        if end == self.optional_whitespace(next)? {
             // Backreference validity checker
             if let Expr::Backref(group) = condition {
                 let after = self.check_for_close_paren(end)?;
